@@ -336,6 +336,7 @@ def check_sizes(ctx, ht, rule, select=lambda f: True):
 def check_footer(ctx, ht, rule, select=lambda f: True):
     P = ht.P
     FA = FT.FooterAlgebra()
+    FT.register_helpers(P)
     FA.reader_stride = FT.reader_stride(P, FA)
     sites = FT.footer_write_sites(P)
     for (f, call) in sites:
